@@ -105,6 +105,18 @@ CHECKS = {
         "non-negativity, zero on constants, quadratic scaling, translation invariance; curve-aware == flat on rigid placements; the corner configuration against a graded reference. TLC computes which orders "
         "exist from the extracted registry and reports cases never exercised.",
    note="Polynomials given in the interval's affine coordinate (conditioning). Corner clause at order 21, right angles, length ratio <= 2, tolerance 1e-9 (spectral convergence)."),
+ "C07": dict(level="exploration", design="§5 C07", engine="panels",
+   technique="TLC (TraceEval over Panels.tla) derives position class, tolerance and evaluate-branch from integer coordinates and judges relative errors against an independent 1-D reference; coverage of (position, time, branch) cells",
+   text="For trial elements of every curve, times before/at/inside/at the end/after the element (parabolic ratio <= 16) and points at end points, inside, in the thin near layer, >= 1% outside, across corners and the seam, "
+        "evaluate (and evaluate_vector) and evaluate_exact on straight sides are compared with a reference (analytic time integral, graded Gauss towards the foot point). TLC computes the seam-aware distance class and "
+        "grants 1e-8 / 2e-3 / 5e-4 (1e-7 for the closed-form variant), demands exact zero for acausal times and reports (position, time, branch) cells never reached; integral identity on the diagonal.",
+   note="Interior points kept > 1.5e-5 from end points (documented precondition). Integral identity only for test = trial (tolerance 2e-4)."),
+ "C09": dict(level="exploration", design="§5 C09", engine="estimators",
+   technique="Estimators.tla (patch structure, shortcut == direct) model-checked on STMesh states; real indicators vs geometric definition with separable residuals judged by TLC (Judge.tla); recorded seminorm arguments vs model patches",
+   text="Estimators.tla is checked on every reachable glued mesh within a budget: patches are contiguous unions through the shared side (seam included), the neighbour-symmetry shortcut equals the direct sum, no self "
+        "neighbours. On refined two-slab meshes of the four closed curves every element's space/time/weighted-L2 indicator is compared with an independent evaluation on the geometric patch (exact rational "
+        "H^{1/4}, polynomial H^{1/2}, graded reference with Euclidean distances; order 17, 1e-4; polynomial residuals 1e-8), plus serial == pool bitwise, shortcut == direct, rotation invariance; judged by TLC with class coverage.",
+   note="Residuals separable p(t) g(gamma(x)). Trusted: reference integrals (Gauss-Legendre on analytic integrands, graded at corners)."),
 }
 
 NOT_YET = {}
@@ -147,6 +159,8 @@ def main():
              "kind_free_text": "TLA+ skeleton of the single-layer operator (causality, panel recursion, classes); judge spec/trace/TracePanels.tla; oracle harness/oracles/heat_ref.py"},
             {"name": "rules", "path": "/verif/spec/Rules.tla", "serves_properties": ["C05", "C14", "C15"],
              "kind_free_text": "rule registry extracted from source (RulesData.tla), scheme algebra (Schemes.tla), judges TraceRules / TraceSchemes / TraceSlobo; oracles: mpmath moments, rational closed forms"},
+            {"name": "estimators", "path": "/verif/spec/Estimators.tla", "serves_properties": ["C09", "C20"],
+             "kind_free_text": "patch structure of the Sobolev estimator and child order / sign patterns of the two-level estimators on top of STMesh"},
             {"name": "assembly", "path": "/verif/spec/Assembly.tla", "serves_properties": ["C17"],
              "kind_free_text": "TLA+ model of the assembly paths / pool / cache; behaviours replayed on real files and pools; judge spec/trace/TraceAssembly.tla"},
             {"name": "paraminit", "path": "/verif/spec/ParamInit.tla", "serves_properties": ["C18"],
